@@ -909,7 +909,11 @@ class Interp:
 
     def ex_IfExp(self, node, fr):
         if self.noforking:
-            c = self.formula(node.test, fr)
+            c = z3.simplify(self.formula(node.test, fr))
+            if z3.is_true(c):
+                return self.eval(node.body, fr)
+            if z3.is_false(c):
+                return self.eval(node.orelse, fr)
             a = self.eval(node.body, fr)
             b = self.eval(node.orelse, fr)
             return lib.ite(self, c, a, b)
